@@ -90,6 +90,7 @@ def kv(line):
 
 
 PREFS = ["rsa", "p256", "p384"]
+FLAKY_FIRST = ["list", "life", "remove0", "add", "ok"]
 GENKEYS = [("rsa", 1024), ("rsa", 2040), ("rsa", 2041), ("rsa", 2048), ("ecdsa", 224), ("ecdsa", 256), ("ecdsa", 384),
            ("ecdsa", 521), ("ed25519", 256), ("dsa", 1024)]
 
@@ -207,6 +208,8 @@ def run(ctx):
     kops = ["k keys %s" % p for p in PREFS] + ["k keys bogus"] + ["k genkey %s %d" % g for g in GENKEYS]
     for p in PREFS:      # the real client's own installation path, three consecutive runs per preference
         kops += ["k install %s noagent" % p, "k install %s agent" % p, "k install %s planted" % p]
+        # … and against an agent that fails one request of the first attempt of each later run (the retry finds it healthy)
+        kops.append("k install %s flaky:%s" % (p, ",".join(w + "+ok" for w in FLAKY_FIRST)))
     kops.append("k genkeypair")
     if not q:
         kops += ["k genkey rsa 4096", "k genkey rsa 3072"]
@@ -215,7 +218,7 @@ def run(ctx):
         ctx.broken.append("client harness (cmd/keymaster) did not complete (exit %d, %d/%d lines)" % (rc, len(kraw), len(kops)))
         return c.finish(ctx)
     kimpl = strip(kraw)
-    mops, cmp_impl = [], []
+    mops, cmp_impl, msrc = [], [], []
     planted_j = []
     keys = {}       # name -> dict(desc, ssh, pkix)
     offers = []     # (pref, cert, mandatory, keyname, field)
@@ -224,6 +227,7 @@ def run(ctx):
         d = kv(r)
         if f[1] == "keys" and f[2] in PREFS:
             mops.append("offer " + f[2])
+            msrc.append(o)
             cmp_impl.append(l)
             keys[f[2] + ".main"] = {"desc": l.split()[1].split("=")[1], "ssh": c.unhexs(r.split("#sshmain=")[1].split()[0]),
                                     "pkix": None}
@@ -238,7 +242,10 @@ def run(ctx):
             if l.startswith("desc="):
                 keys["gen.%s%s" % (f[2], f[3])] = {"desc": d["desc"], "ssh": c.unhexs(d.get("ssh", "-")), "pkix": c.unhexs(d.get("pkix", "-"))}
         elif f[1] == "install":
-            mops.append("install %s %s 1 ssh" % (f[2], "noagent" if f[3] == "planted" else f[3]))
+            mops.append("install %s %s 1 ssh" % (f[2], "noagent" if f[3] == "planted" else "agent" if f[3].startswith("flaky:") else f[3]))
+            msrc.append(o)
+            if f[3].startswith("flaky:"):
+                cov.setdefault("flaky_agent_installs", {})["%s %s" % (f[2], f[3][6:])] = " ".join(l.split()[:3])
             if f[3] == "planted":
                 kvs = kv(l)
                 planted_j.append(("planted %s %s %s %s" % (kvs.get("captured", "?"), kvs.get("foreignconns", "?"),
@@ -269,12 +276,18 @@ def run(ctx):
             out.append(tok)
         return " ".join(out)
     c.diff_streams(ctx, "cmd/keymaster key generation + installation vs KM.Client.offers / install model", mops, cmp_impl, model, canon=canon)
-    for mo, a, b in zip(mops, cmp_impl, model):
+    for mo, src, a, b in zip(mops, msrc, cmp_impl, model):
         if mo.startswith("install ") and canon(a) != canon(b):
-            f = mo.split()
+            f = src.split()[1:]
+            if f[2].startswith("flaky:"):
+                pending_violation(ctx, "install:%s:flaky-agent" % f[1],
+                                  "insertSSHCertIntoAgentORWriteToFilesystem with the real %s SSH key: a healthy run, then one run per plan "
+                                  "against an agent failing one request of the first attempt (%s; the retry finds it healthy) left %s, "
+                                  "expected %s" % (f[1], f[2][6:], canon(a), canon(b)), {"stream": "k", "ops": [src], "impl": a, "model": b})
+                continue
             pending_violation(ctx, "install:%s:%s" % (f[1], f[2]),
                               "three runs of insertSSHCertIntoAgentORWriteToFilesystem with the real %s SSH key (%s) left %s, expected %s" % (
-                                  f[1], f[2], canon(a), canon(b)), {"stream": "k", "ops": ["k install %s %s" % (f[1], f[2])], "impl": a, "model": b})
+                                  f[1], f[2], canon(a), canon(b)), {"stream": "k", "ops": [src], "impl": a, "model": b})
     # ------------------------------------------------------------------ 2. server acceptance
     sops, smeta = [], []
     for (pref, cert, mand, kn) in offers:
